@@ -387,12 +387,72 @@ pub fn check_analysis_print(b: &Bound, formulas: &[String], print: Option<(&str,
     }
 }
 
+/// Every formula on its own through the single-formula variant `analyse_formula`, with a context archive written for the
+/// number of spare variable sets that formula needs; the context archive must be left untouched.
+pub fn check_analysis_ctx_single(b: &Bound) -> Option<String> {
+    let dir = tempfile::tempdir().ok()?;
+    let (cpath, opath) = (dir.path().join("ctx.zip"), dir.path().join("out.zip"));
+    let v0 = b.spec.vars[0].clone();
+    let formulas: Vec<String> = vec!["%raw%".into(), format!("%rawa% | {v0}"), "EF %rawa%".into(), "%p% & %rawa%".into(), "!{x} in %rawa%: AX ({x} | %p%)".into(), "3{x} in %p%: !{y} in %rawa%: (@{x}: EF {y})".into()];
+    let r = guarded(AssertUnwindSafe(|| -> Option<String> {
+        for f in &formulas {
+            let k = crate::refparser::parse_str(f, true).map(|t| t.qdepth()).unwrap_or(0) as u16;
+            let g = match get_extended_symbolic_graph(&b.bn, k) {
+                Ok(g) => g,
+                Err(e) => return Some(format!("graph with k={k}: {e}")),
+            };
+            let sc = g.symbolic_context();
+            let fams = label_families(b, 1);
+            let sets: HashMap<String, GraphColoredVertices> = HashMap::from([
+                ("raw".to_string(), GraphColoredVertices::new(sc.mk_constant(true), sc)),
+                ("rawa".to_string(), GraphColoredVertices::new(sc.mk_state_variable_is_true(g.variables().next().unwrap()), sc)),
+                ("p".to_string(), b.mk_set_in(&g, &fams[0].1.wild[0])),
+            ]);
+            if let Err(e) = build_result_archive(sets.clone(), cpath.to_str().unwrap(), b.bn.to_string().as_str(), vec![]) {
+                return Some(format!("writing the context archive fails: {e}"));
+            }
+            if let Err(e) = biodivine_hctl_model_checker::analysis::analyse_formula(&b.bn, f.clone(), PrintOptions::NoPrint, Some(opath.to_str().unwrap().to_string()), Some(cpath.to_str().unwrap().to_string())) {
+                return Some(format!("analyse_formula({f}) with a context archive fails: {e}"));
+            }
+            let loaded = match load_bdd_bundle(opath.to_str().unwrap(), g.symbolic_context()) {
+                Ok(l) => l,
+                Err(e) => return Some(format!("load_bdd_bundle fails on the archive of analyse_formula({f}): {e}")),
+            };
+            let want = match mc::model_check_extended_formula_dirty(f, &g, &sets) {
+                Ok(w) => w,
+                Err(e) => return Some(format!("in-memory evaluation of {f} fails: {e}")),
+            };
+            match loaded.get("formula-0") {
+                Some(s) if s.as_bdd() == want.as_bdd() && loaded.len() == 1 => {}
+                Some(_) => return Some(format!("analyse_formula({f}): archived formula-0 differs from the in-memory evaluation (or further entries: {:?})", loaded.keys().collect::<Vec<_>>())),
+                None => return Some(format!("analyse_formula({f}): entry formula-0 missing")),
+            }
+            // the context archive must still be what it was
+            match load_bdd_bundle(cpath.to_str().unwrap(), g.symbolic_context()) {
+                Ok(c) if c.len() == sets.len() && sets.iter().all(|(l, s)| c.get(l).map(|x| x.as_bdd() == s.as_bdd()).unwrap_or(false)) => {}
+                _ => return Some(format!("analyse_formula({f}): the context archive was modified by the run")),
+            }
+        }
+        None
+    }));
+    match r {
+        Ok(v) => v,
+        Err(p) => Some(format!("panic: {p}")),
+    }
+}
+
 /// Archived sets used as wild-card / domain context by `analyse_formulae` (the archive -> analysis ->
 /// archive chain) have the same effect as the in-memory sets: including sets that are not confined to
 /// the valid colours (whole symbolic space, a raw state variable).
-pub fn check_analysis_ctx(b: &Bound) -> Option<String> {
+/// `mode`: 0 = separate context and result archives, 1 = the result archive is written to the path of the context
+/// archive (in-place update of a bundle), 2 = every formula on its own through the single-formula variant `analyse_formula`.
+pub fn check_analysis_ctx(b: &Bound, mode: u8) -> Option<String> {
+    if mode == 2 {
+        return check_analysis_ctx_single(b);
+    }
     let dir = tempfile::tempdir().ok()?;
-    let (cpath, opath) = (dir.path().join("ctx.zip"), dir.path().join("out.zip"));
+    let cpath = dir.path().join("ctx.zip");
+    let opath = if mode == 1 { cpath.clone() } else { dir.path().join("out.zip") };
     let v0 = b.spec.vars[0].clone();
     let formulas: Vec<String> = vec!["%raw%".into(), format!("%rawa% | {v0}"), "EF %rawa%".into(), "~ %rawa%".into(), "%p% & %rawa%".into(), "!{x} in %rawa%: AX ({x} | %p%)".into()];
     let k = 1u16;
@@ -412,7 +472,7 @@ pub fn check_analysis_ctx(b: &Bound) -> Option<String> {
             return Some(format!("writing the context archive fails: {e}"));
         }
         if let Err(e) = analyse_formulae(&b.bn, formulas.clone(), PrintOptions::NoPrint, Some(opath.to_str().unwrap().to_string()), Some(cpath.to_str().unwrap().to_string())) {
-            return Some(format!("analyse_formulae with a context archive fails: {e}"));
+            return Some(format!("analyse_formulae with a context archive{} fails: {e}", if mode == 1 { " (result archive written to the same path)" } else { "" }));
         }
         let loaded = match load_bdd_bundle(opath.to_str().unwrap(), g.symbolic_context()) {
             Ok(l) => l,
@@ -486,7 +546,7 @@ pub fn replay(case: &Value) -> Option<String> {
     let spec = serde_json::from_value(case["net"].clone()).ok()?;
     let b = Bound::new("replay", &spec, 0).ok()?;
     if case.get("analysis_ctx").is_some() {
-        return check_analysis_ctx(&b);
+        return check_analysis_ctx(&b, case["mode"].as_u64().unwrap_or(0) as u8);
     }
     if let Some(fs) = case.get("initial") {
         let fs: Vec<String> = serde_json::from_value(fs.clone()).ok()?;
@@ -632,12 +692,14 @@ pub fn run(tier: &str) -> Result<Report, String> {
     }
     // the archive -> analysis -> archive chain with context sets inside and outside the valid colours
     for b in nets.iter().filter(|b| which.contains(&b.name.as_str())) {
-        rep.evaluations += 1;
-        if let Some(w) = check_analysis_ctx(b) {
-            rep.violations.push(Violation { case: json!({"kind": "archive", "net": b.spec, "analysis_ctx": true}), what: format!("analyse_formulae with a context archive on {}: {w}", b.name), size: 6 });
+        for mode in 0..3u8 {
+            rep.evaluations += 1;
+            if let Some(w) = check_analysis_ctx(b, mode) {
+                rep.violations.push(Violation { case: json!({"kind": "archive", "net": b.spec, "analysis_ctx": true, "mode": mode}), what: format!("analyse_formulae with a context archive on {} (mode {mode}: 0 separate paths, 1 result written over the context archive, 2 single-formula variant): {w}", b.name), size: 6 });
+            }
         }
     }
     rep.sample(json!({"network": "con2", "format": "sbml", "k": 2, "labels": ["a", "x_1", "A.b", "formula-0"], "formulae_lines": 3}));
-    rep.rule = format!("networks {which:?} x input format (aeon, aeon with reversed line order, sbml, bnet where the format reproduces the network exactly) x k in {ks:?} x 9 label->set maps (labels model, formulae, model.aeon, formulae.txt, sub/model, True, in; a map with 70 labels formula-0..formula-69; empty map, empty set, unit set, colour-dependent/empty-for-some-colours/colour-disjoint family sets, raw results; labels formula-0, a, x_1, A.b, run.2.fixed, 'dom 1', x-y, é_2, BDD, a.bdd, nested labels zz/p 0/p dir/sub/q next to p, s0..) x 4 formula lists (0-3 lines) x (aeon) 6 histories of the target path (fresh, an earlier result archive of another model with other formulae and overlapping + additional labels, a non-zip file, an empty file, a much longer earlier archive with 200 entries, a 200 kB non-zip file): build_result_archive -> independent unzip (entry list exact, formulae.txt lines) -> model.aeon re-parsed, symbolic context compared by variable names -> load_bdd_bundle (for k >= 1 the map also holds sets that depend on the spare variable sets, compared as BDDs) -> every set compared point-wise on all (state, valid colour) pairs and as BDD -> reloaded sets used as wild-card/domain context of three extended formulae; plus build_initial_archive (exactly model.aeon and formulae.txt, on a fresh path and over a longer archive / file); plus analyse_formulae / analyse_formula archives (in process, and through the tool under each of the four print options, on a fresh output path and over a much longer earlier archive): entry formula-i equals the result of line i; plus the chain context archive -> analyse_formulae -> result archive with context sets inside and outside the valid colours (whole symbolic space, raw state variable) vs evaluation with the in-memory sets. distinct_nontrivial = round-trip cases with at least one set");
+    rep.rule = format!("networks {which:?} x input format (aeon, aeon with reversed line order, sbml, bnet where the format reproduces the network exactly) x k in {ks:?} x 9 label->set maps (labels model, formulae, model.aeon, formulae.txt, sub/model, True, in; a map with 70 labels formula-0..formula-69; empty map, empty set, unit set, colour-dependent/empty-for-some-colours/colour-disjoint family sets, raw results; labels formula-0, a, x_1, A.b, run.2.fixed, 'dom 1', x-y, é_2, BDD, a.bdd, nested labels zz/p 0/p dir/sub/q next to p, s0..) x 4 formula lists (0-3 lines) x (aeon) 6 histories of the target path (fresh, an earlier result archive of another model with other formulae and overlapping + additional labels, a non-zip file, an empty file, a much longer earlier archive with 200 entries, a 200 kB non-zip file): build_result_archive -> independent unzip (entry list exact, formulae.txt lines) -> model.aeon re-parsed, symbolic context compared by variable names -> load_bdd_bundle (for k >= 1 the map also holds sets that depend on the spare variable sets, compared as BDDs) -> every set compared point-wise on all (state, valid colour) pairs and as BDD -> reloaded sets used as wild-card/domain context of three extended formulae; plus build_initial_archive (exactly model.aeon and formulae.txt, on a fresh path and over a longer archive / file); plus analyse_formulae / analyse_formula archives (in process, and through the tool under each of the four print options, on a fresh output path and over a much longer earlier archive): entry formula-i equals the result of line i; plus the chain context archive -> analyse_formulae -> result archive with context sets inside and outside the valid colours (whole symbolic space, raw state variable) vs evaluation with the in-memory sets (also with the result archive written to the path of the context archive, and formula by formula through analyse_formula with the context archive left untouched). distinct_nontrivial = round-trip cases with at least one set");
     Ok(rep)
 }
